@@ -42,13 +42,31 @@ for i in $(seq 1 $runs); do
     [ $rc -eq 3 ] && { echo "INCONCLUSIVE property=C20 race stage inconclusive"; exit 2; }
   fi
 done
+# Race sweep: every other property's monitor is itself a 16-worker concurrent
+# workload over the library (each worker on its own inputs), so running it
+# under the race detector exposes package-level mutable state in code paths the
+# C20 inventory calls only with a few argument values. Reduced case counts
+# (VERIF_SCALE); only race reports and runtime-fatal errors count here, the
+# value verdicts of those monitors belong to their own checks.
+sweep="C04 C05 C07 C08 C09 C12 C14 C15 C16"; scale=0.1
+[ "$tier" = thorough ] && { sweep="C01 C02 C03 C04 C05 C06 C07 C08 C09 C10 C11 C12 C13 C14 C15 C16 C17 C18 C19"; scale=0.3; }
+sweep_reports=0; sweep_props=0
+for p in $sweep; do
+  GORACE="halt_on_error=0 log_path=$R/sweep.$p" VERIF_DIR="$R" VERIF_EVIDENCE_DIR="$R/evidence" VERIF_STAGE= VERIF_PROP=$p VERIF_TIER=quick VERIF_SCALE=$scale VERIF_SEED=${VERIF_SEED:-1} \
+    timeout -s QUIT 3600 "$BIN/monitor.race.$$.test" -test.run '^TestMonitor$' -test.timeout 0 >"$R/sweep.$p.out" 2>&1
+  n=$(cat "$R"/sweep.$p.[0-9]* 2>/dev/null | grep -c 'WARNING: DATA RACE')
+  if grep -q -e '^fatal error:' "$R/sweep.$p.out"; then n=$((n + 1)); grep -m1 '^fatal error:' "$R/sweep.$p.out"; fi
+  sweep_reports=$((sweep_reports + n)); sweep_props=$((sweep_props + 1))
+  [ "$n" -gt 0 ] && echo "  race sweep: $n report(s) while running the $p workload under the race detector"
+done
+total=$((total + sweep_reports))
 keep="$VERIF_DIR/replays/C20"
 if [ "$total" -gt 0 ]; then
   mkdir -p "$keep"
-  cat "$R"/race.*.* > "$keep/race-reports-$tier-s${VERIF_SEED:-1}.log"
+  cat "$R"/race.*.* "$R"/sweep.*.[0-9]* > "$keep/race-reports-$tier-s${VERIF_SEED:-1}.log" 2>/dev/null
   echo "VIOLATION property=C20 replay=$keep/race-reports-$tier-s${VERIF_SEED:-1}.log"
-  echo "  $total data race report(s) from the race detector over $runs runs; outermost entry points:"
-  grep -h -A12 'WARNING: DATA RACE' "$keep/race-reports-$tier-s${VERIF_SEED:-1}.log" | grep -o 'verifmon/props\.[A-Za-z0-9_.()*]*\|go-moremath/[a-z/]*\.[A-Za-z0-9_.()*]*' | sort | uniq -c | sort -rn | head -8
+  echo "  $total data race report(s) from the race detector over $runs runs of the shared-input stage and the race sweep; library functions in the racing stacks:"
+  grep -h -A12 'WARNING: DATA RACE' "$keep/race-reports-$tier-s${VERIF_SEED:-1}.log" | grep -o 'go-moremath/[a-zA-Z/]*\.[A-Za-z0-9_.]*' | sort | uniq -c | sort -rn | head -8
   rcall=1
 elif [ $rcall -eq 1 ]; then
   mkdir -p "$keep"
@@ -57,9 +75,10 @@ elif [ $rcall -eq 1 ]; then
 fi
 # fold the race-stage observations into the evidence file
 rm -f "$BIN/monitor.race.$$.test"
-python3 - "$EVDIR/C20.json" "$R" "$total" "$runs" "$rcall" <<'PY'
+python3 - "$EVDIR/C20.json" "$R" "$total" "$runs" "$rcall" "$sweep_props" "$sweep_reports" "$scale" <<'PY'
 import json, sys, glob
 ev, R, total, runs, rcall = sys.argv[1], sys.argv[2], int(sys.argv[3]), int(sys.argv[4]), int(sys.argv[5])
+sweep_props, sweep_reports, scale = int(sys.argv[6]), int(sys.argv[7]), float(sys.argv[8])
 d = json.load(open(ev))
 calls = 0; evals = 0
 for f in glob.glob(R + '/evidence/C20.json'):
@@ -69,6 +88,12 @@ for f in glob.glob(R + '/evidence/C20.json'):
 c = d['coverage']
 c['race_detector_runs'] = runs
 c['race_reports'] = total
+c['race_sweep'] = {'monitors_run_under_race_detector': sweep_props, 'case_count_scale': scale, 'race_reports': sweep_reports}
+sw = 0
+for f in glob.glob(R + '/evidence/C*.json'):
+    if not f.endswith('/C20.json'):
+        sw += json.load(open(f))['coverage'].get('evaluations', 0)
+c['race_sweep']['library_call_events_under_race_detector'] = sw
 c['race_stage_concurrent_calls_per_run'] = calls
 c['race_stage_results_compared_per_run'] = evals
 c['evaluations'] = c.get('evaluations', 0) + runs * evals
